@@ -91,6 +91,21 @@ MAN={ # (file, site) -> category
 
 # second part of the campaign (sites 701..2650 of the sample order): verdicts by file and site
 MAN2=[
+ ('dhcpv4/options.go',[20],'B: equivalent (append copies the instance; clipping the source slice changes nothing)'),
+ ('dhcpv4/option_autoconfigure.go',[10],'A: typed rendering of option 116 in Summary (the AutoConfigure accessor reads the byte itself)'),
+ ('dhcpv4/server4/server.go',[5],'A: size of the read buffer beyond any Ethernet-size datagram (datagrams over 1,500 octets are judged by what the server read)'),
+ ('dhcpv6/server6/server.go',[4],'A: size of the read buffer beyond any Ethernet-size datagram (datagrams over 1,500 octets are judged by what the server read)'),
+ ('dhcpv6/dhcpv6.go',[42],'B: equivalent (the loop below returns a non-relay message unchanged as well)'),
+ ('dhcpv6/dhcpv6.go',[66],'C: gap closed — C16 now requires EncapsulateRelay to refuse every message type other than RELAY-FORW / RELAY-REPL'),
+ ('dhcpv6/dhcpv6relay.go',[88],'B: unreachable error path (the builder always passes RELAY-REPL)'),
+ ('dhcpv6/option_vendorclass.go',[5],'A: content of an option object after it is used as a decoder a second time (stated for label sets only, C19)'),
+ ('dhcpv6/dhcpv6message.go',[165,197],'C: gap closed — C16 now passes nil to every builder (was: to the ADVERTISE builder only)'),
+ ('dhcpv6/option_bootfileparam.go',[9],'C: gap closed — C02 now round-trips single values of 255 … 60,000 octets (boot file parameters, class data, interface id, URL, unknown option)'),
+ ('dhcpv4/types.go',[5],'C: gap closed — killed by C15 and C10 (the campaign had mapped types.go to C17/C20/C03 only); C13 now writes reply opcodes by value'),
+ ('dhcpv6/option_4rd.go',[51,54],'C: gap closed — killed by the numeric-field sweep added to C05 in round 5'),
+ ('dhcpv4/dhcpv4.go',[171],'C: gap closed — killed by C07 (a packet whose option map was never made, added in round 6)'),
+ ('dhcpv4/nclient4/client.go',[133,146],'C: gap closed — killed by C11/write-failure (injected transmission failure, added after the first part of the campaign)'),
+ ('dhcpv6/nclient6/client.go',[91,104],'C: gap closed — killed by C11/write-failure'),
  ('dhcpv4/dhcpv4.go',[1,3],'B: capacity hint / unused constant'),
  ('dhcpv4/dhcpv4.go',[8,9,10],'A: RandomTimeout, a default of the random-source helper'),
  ('dhcpv4/dhcpv4.go',[99],'B: equivalent (a truncated header leaves a zero cookie, rejected by the next test)'),
@@ -179,7 +194,7 @@ if os.path.exists('/verif/mutants/auto/recheck.jsonl'):
     for l_ in open('/verif/mutants/auto/recheck.jsonl'):
         r_=json.loads(l_)
         if r_['status']=='killed':
-            MAN[(r_['file'],r_['site'])]='K: killed by the current %s check (%s)' % (r_['by'], (r_.get('sig') or [''])[0].split('sig=')[-1][:60])
+            MAN.setdefault((r_['file'],r_['site']),'C: gap closed — killed by the current %s check (%s)' % (r_['by'], (r_.get('sig') or [''])[0].split('sig=')[-1][:60]))
 
 out=[]
 cnt={}
@@ -191,8 +206,10 @@ for r,cat in rows:
     out.append((r['file'],r['line'],r['site'],r['op'],r['func'],realdiff(r),cat))
 out.sort()
 with open('/verif/mutants/auto/TRIAGE.md','w') as f:
-    f.write('# Triage of the mutants that survived the automatic campaign (tools/automut.py --sample 700 --seed 1)\n\n')
-    f.write("700 sampled mutants: 53 did not build, 421 are caught by the repository's own test suite, 89 were killed by a mapped check, 137 reached the end of their check list (136 survived, 1 inconclusive).\n")
+    import collections
+    st=collections.Counter(r['status'] for r in rs)
+    f.write('# Triage of the mutants that survived the automatic campaign (tools/automut.py --sample 2650 --seed 1: every site)\n\n')
+    f.write("%d mutants (every mutation site of the 59 anchored source files): %d did not build, %d are caught by the repository's own test suite, %d were killed by a mapped check at campaign time, %d reached the end of their check list (%d survived, %d inconclusive). The campaign ran against the checks as they were when each mutant's turn came (the first 700 before round 4, the rest during rounds 6 and 7); survivors inside a property were re-run against the current checks (tools/automut_recheck.py, mutants/auto/recheck.jsonl).\n" % (len(rs), st['stillborn'], st['suite-killed'], st['killed'], st['survived']+st['inconclusive'], st['survived'], st['inconclusive']))
     f.write('Categories: **A** outside every listed property (%d), **B** equivalent mutant (%d), **C** a real gap of the harness, closed since (%d; each re-run and killed).\n\n' % (cnt.get('A',0),cnt.get('B',0),cnt.get('C',0)))
     f.write('| file:line | site | operator | function | change | verdict |\n|---|---|---|---|---|---|\n')
     for fl,ln,site,op,fn,d,cat in out:
